@@ -28,6 +28,7 @@ type Prog struct {
 	immutable     map[string]bool
 	errGlobals    map[string]int
 	tables        map[string]*tableData
+	byName        map[string]*types.Package
 	globalInit    map[string]string
 }
 
@@ -211,6 +212,31 @@ func initialisedWithNewError(init *ssa.Function, g *ssa.Global) bool {
 		}
 	}
 	return false
+}
+
+// typesPkgByName finds a package (loaded or imported by a loaded one) by its name.
+func (p *Prog) typesPkgByName(name string) *types.Package {
+	if p.byName == nil {
+		p.byName = map[string]*types.Package{}
+		var visit func(tp *types.Package)
+		seen := map[*types.Package]bool{}
+		visit = func(tp *types.Package) {
+			if seen[tp] {
+				return
+			}
+			seen[tp] = true
+			if _, ok := p.byName[tp.Name()]; !ok {
+				p.byName[tp.Name()] = tp
+			}
+			for _, imp := range tp.Imports() {
+				visit(imp)
+			}
+		}
+		for _, pk := range p.pkgs {
+			visit(pk.Types)
+		}
+	}
+	return p.byName[name]
 }
 
 func (p *Prog) immutableGlobal(name string) bool { return p.immutable[name] }
